@@ -1,5 +1,6 @@
 """C14 -- function-term mode prints the same program with foreign keys wrapped."""
 import os
+import re
 import shutil
 import subprocess
 
@@ -59,8 +60,26 @@ def compare_modes(flat, fn):
     return None
 
 
+def late_concept_attribute(text, diff):
+    """the trigger of F-C14-attribute-named-after-later-concept: a concept X is defined on a line AFTER a declaration that gives
+    another concept an attribute named X, and the two shapes differ by a term named X"""
+    lines = text.split('\n')
+    for i, l in enumerate(lines):
+        m = re.match(r'\s*An? (\w+) (?:is identified|is one of|is a temporal concept|goes from|ranges from)', l)
+        if not m:
+            continue
+        x = m.group(1).lower()
+        if ("'%s'" % x) not in diff:
+            continue
+        for e in lines[:i]:
+            if re.search(r'is identified by .*\b(?:has|and) an? %s\b' % re.escape(x), e) or re.search(r'is identified by .*\bby an? %s\b' % re.escape(x), e):
+                return True
+    return False
+
+
 def run(tier, seed):
     rep = Report(PID, tier, seed)
+    findings = {f['id']: f for f in common.load_findings(PID) if f.get('status') == 'known'}
     proof = common.build_property(PID, extra=['Asp/PrintCases.vo'])
     specs = stream.specs(tier, seed)
     res = stream.objects_many([t for _, t, _ in specs])
@@ -82,7 +101,9 @@ def run(tier, seed):
         cases.append('{| pc_enc := %s; pc_flat := %s; pc_fn := %s |}' % (term, coq_str(flat), coq_str(fn)))
         meta.append(dict(name=name, text=text, flat=flat, fn=fn))
         d = compare_modes(flat, fn)
-        if d:
+        if d and 'two shapes' in d and 'F-C14-attribute-named-after-later-concept' in findings and late_concept_attribute(text, d):
+            rep.known_finding('F-C14-attribute-named-after-later-concept', findings['F-C14-attribute-named-after-later-concept']['summary'])
+        elif d:
             rep.violation('function-term mode is not the default program with wrapped groups: ' + d, dict(text=text, default=flat, with_functions=fn))
     # the command-line option must select the same mode as the API flag
     wrapped = [m for m in meta if m['fn'] != m['flat']]
